@@ -406,7 +406,18 @@ def pstrStep (w : Nat) (s : ByteArray) (op : String) (args : List Int) : Option 
   | "new", [] =>
     match PStr.new w P s with
     | .error e => some (s, faultStr e)
-    | .ok (b', r) => some (b', if r then "ok x" ++ hexBA (PStr.payload w b') else "err")
+    | .ok (b', r) => some (b', if r then "ok x" ++ hexBA (PStr.payload w b') ++ " s" ++ toString (PStr.size w b') else "err")
+  | "upper", [] =>
+    match PStr.new w P s with
+    | .error e => some (s, faultStr e)
+    | .ok (b', r) =>
+      if r then
+        -- make_ascii_uppercase through the &mut str: ASCII lowercase bytes of the payload lose bit 5
+        let len := PStr.recLen w b'
+        let up : ByteArray := ⟨(b'.toList.zipIdx.map fun (x, i) =>
+          if w ≤ i ∧ i < w + len ∧ 97 ≤ x.toNat ∧ x.toNat ≤ 122 then UInt8.ofNat (x.toNat - 32) else x).toArray⟩
+        some (up, "ok x" ++ hexBA (PStr.payload w up) ++ " s" ++ toString (PStr.size w up))
+      else some (b', "err")
   | "copy", [blob] =>
     match PStr.new w P s with
     | .error e => some (s, faultStr e)
@@ -416,7 +427,7 @@ def pstrStep (w : Nat) (s : ByteArray) (op : String) (args : List Int) : Option 
         | none => none
         | some str =>
           let b'' := PStr.copyFromStr w b' str
-          some (b'', "ok x" ++ hexBA (PStr.payload w b''))
+          some (b'', "ok x" ++ hexBA (PStr.payload w b'') ++ " s" ++ toString (PStr.size w b''))
       else some (b', "err")
   | "load", [] =>
     match PStr.fromBytes w s with
